@@ -109,6 +109,38 @@ def exhaustive_items(prop, tier):
     return items
 
 
+def calendar_check(out: Outcome, drv):
+    """IoosQc.periodOf against pandas: every day 1970-01-01 … 2100-12-31 (thorough) or the edge
+    set around every year boundary and leap day (quick), for every period kind."""
+    import numpy as np
+    import pandas as pd
+
+    if out.tier == "thorough":
+        days = np.arange(0, 47848, dtype="int64")
+    else:
+        years = pd.date_range("1970-01-01", "2100-01-01", freq="YS")
+        base = (years.values.astype("datetime64[D]").astype("int64"))
+        days = np.unique(np.concatenate([base + d for d in range(-5, 6)] +
+                                        [base + 58 + d for d in range(0, 4)]))
+        days = days[(days >= 0) & (days < 47848)]
+    secs = days * 86400 + 13 * 3600 + 7
+    idx = pd.DatetimeIndex(secs.astype("datetime64[s]"))
+    want = {"year": idx.year, "month": idx.month, "week": idx.isocalendar().week.to_numpy(), "dayofyear": idx.dayofyear,
+            "dayofweek": idx.dayofweek, "quarter": idx.quarter, "day": idx.day, "hour": idx.hour}
+    reqs = [{"kind": "period", "period": p, "t": [int(v) for v in secs]} for p in want]
+    bad = 0
+    for p, a in zip(want, drv.run(reqs)):
+        w = [int(v) for v in np.asarray(want[p])]
+        out.record({"calendar": p, "days": int(len(days))}, True, [f"calendar:{p}"])
+        if a["values"] != w:
+            i = next(k for k, (x, y) in enumerate(zip(a["values"], w)) if x != y)
+            bad += 1
+            out.corr_break(f"IoosQc.periodOf correspondence with pandas ({p})",
+                           {"period": p, "t": int(secs[i]), "model": a["values"][i], "pandas": w[i]})
+    out.extra["calendar_days_checked"] = int(len(days))
+    out.extra["calendar_exhaustive_1970_2100"] = out.tier == "thorough"
+
+
 def run(out: Outcome, drv, prop):
     fns, nq, nt = PLAN[prop]
     n = nq if out.tier == "quick" else nt
@@ -116,6 +148,8 @@ def run(out: Outcome, drv, prop):
                 f"every threshold, lengths 0..12 incl. 0,1,2,3, missing values, malformed parameter stream) plus a small "
                 f"bounded-exhaustive core; a case is non-trivial when its observed flag vector has >= 2 distinct values or the call "
                 f"raised; distinct by SHA-1 of the canonical logical case")
+    if prop == "C08":
+        calendar_check(out, drv)
     corp = fx.corpus_items(prop)
     if corp:
         fx.run_cases(out, drv, corp, verdict, WHAT[prop])
